@@ -220,18 +220,30 @@ func PoolPut(name string) {
 	perturb("pool_put")
 }
 
-var choiceModes sync.Map // name -> "prefer" | "avoid" | "flip"
+var (
+	choiceModes sync.Map // name -> "prefer" | "avoid" | "flip" | "random"
+	choiceMu    sync.Mutex
+	choiceRng   = rand.New(rand.NewSource(1))
+)
 
 // SetChoice overrides a size-dependent decision of the library ("" restores
 // the natural decision): "prefer" takes the alternative whenever it is
 // allowed, "avoid" never takes it, "flip" takes the opposite of the natural
-// decision when that is allowed.
+// decision when that is allowed, "random" takes it (when allowed) on the toss
+// of a coin seeded with SeedChoices.
 func SetChoice(name, mode string) {
 	if mode == "" {
 		choiceModes.Delete(name)
 		return
 	}
 	choiceModes.Store(name, mode)
+}
+
+// SeedChoices reseeds the coin of the "random" mode.
+func SeedChoices(seed int64) {
+	choiceMu.Lock()
+	choiceRng = rand.New(rand.NewSource(seed))
+	choiceMu.Unlock()
 }
 
 // Choice is consulted where the library picks between two candidates that are
@@ -249,6 +261,11 @@ func Choice(name string, natural, allowed bool) bool {
 		return false
 	case "flip":
 		return !natural && allowed
+	case "random":
+		choiceMu.Lock()
+		heads := choiceRng.Intn(2) == 0
+		choiceMu.Unlock()
+		return heads && allowed
 	}
 	return natural
 }
